@@ -243,6 +243,14 @@ class _Sess:
         return [self.attrs.get(a) for a in attrs]
 
 
+for second in (0, 3, 5, 63, 255):
+    xyl = bytes([63, second]) + bytes(R.randrange(256) for _ in range(62))
+    sess = _Sess({_p11.CKA_KEY_TYPE: _p11.CKK_EC, _p11.CKA_EC_POINT: tuple(b"\x04" + xyl), _p11.CKA_EC_PARAMS: tuple(emu.OID[256])})
+    r = vlib.run_impl(KSKM_P11Module._p11_object_to_public_key, sess, object())
+    count("ec-point-x-starts-with-length-octet")
+    if r[0] != "ok" or base64.b64decode(r[1]) != xyl:
+        rep.violation("impl-vs-spec", f"bare EC point whose X coordinate begins with octets (0x3f, {second:#04x}) is not returned as the token's key",
+                      {"point": (b"\x04" + xyl).hex(), "impl": r[2] if r[0] != "ok" else "wrong key"})
 xy = bytes([63, 4]) + bytes(R.randrange(256) for _ in range(62))
 sess = _Sess({_p11.CKA_KEY_TYPE: _p11.CKK_EC, _p11.CKA_EC_POINT: tuple(b"\x04" + xy), _p11.CKA_EC_PARAMS: tuple(emu.OID[256])})
 r = vlib.run_impl(KSKM_P11Module._p11_object_to_public_key, sess, object())
